@@ -440,11 +440,24 @@ def main(tier, seed, replay=None):
         failed, failed4, errors = [], [], ["coq build broken"]
 
     cases = mode_cases(rng, 2500 if big else 260)
-    diff, fam, outcomes, wrote = [], {}, {}, []
+    diff, fam, outcomes, wrote, makers = [], {}, {}, [], {}
     for i, c in enumerate(cases):
         before = snapshot(c["data"])
-        o_mem = S.run_validate(c["data"], c["sg"], **c["opts"])
-        o_sp = S.run_validate(c["data"], c["sg"], sparql_mode=True, **c["opts"])
+        if i % 7 == 3 and not c["opts"].get("inplace"):
+            # the caller's own Dataset (default_union as rdflib creates it), triples spread over named graphs: a fresh object per call
+            def as_ds(g, k=i):
+                ds = rdflib.Dataset()
+                for j_, t_ in enumerate(sorted(g)):
+                    (ds.default_context if (j_ + k) % 3 == 0 else ds.graph(URIRef("urn:g%d" % ((j_ + k) % 2)))).add(t_)
+                return ds
+            makers[i] = (lambda g=c["data"], f_=as_ds: f_(g))
+            o_mem = S.run_validate(makers[i](), c["sg"], **c["opts"])
+            o_sp = S.run_validate(makers[i](), c["sg"], sparql_mode=True, **c["opts"])
+            fam["(as caller-built Dataset)"] = fam.get("(as caller-built Dataset)", 0) + 1
+        else:
+            makers[i] = (lambda g=c["data"]: g)
+            o_mem = S.run_validate(c["data"], c["sg"], **c["opts"])
+            o_sp = S.run_validate(c["data"], c["sg"], sparql_mode=True, **c["opts"])
         if snapshot(c["data"]) != before:
             wrote.append(i)
         fam[c["family"]] = fam.get(c["family"], 0) + 1
@@ -460,16 +473,16 @@ def main(tier, seed, replay=None):
         def agrees(o2):
             return o2 is not None and o2[0] == o_mem[0] and ((o2[0] == "err" and o2[1] == o_mem[1]) or (o2[0] == "ok" and o2[1] == o_mem[1] and EC.keys(o2) == EC.keys(o_mem)))
         with rdflib_leftjoin_patched() as pl:
-            o3 = S.run_validate(cases[i]["data"], cases[i]["sg"], sparql_mode=True, **cases[i]["opts"]) if pl.applied else None
+            o3 = S.run_validate(makers[i](), cases[i]["sg"], sparql_mode=True, **cases[i]["opts"]) if pl.applied else None
         if agrees(o3) and KNOWN_LJ in known:
             rep.known_finding(KNOWN_LJ, LJ_WHAT)
             continue
         with rdflib_mulpath_patched() as pt:
-            o2 = S.run_validate(cases[i]["data"], cases[i]["sg"], sparql_mode=True, **cases[i]["opts"]) if pt.applied else None
+            o2 = S.run_validate(makers[i](), cases[i]["sg"], sparql_mode=True, **cases[i]["opts"]) if pt.applied else None
         same = agrees(o2)
         if not same and KNOWN_LJ in known and KNOWN_ID in known:
             with rdflib_leftjoin_patched() as pl, rdflib_mulpath_patched() as pt:
-                o4 = S.run_validate(cases[i]["data"], cases[i]["sg"], sparql_mode=True, **cases[i]["opts"]) if (pl.applied and pt.applied) else None
+                o4 = S.run_validate(makers[i](), cases[i]["sg"], sparql_mode=True, **cases[i]["opts"]) if (pl.applied and pt.applied) else None
             if agrees(o4):
                 rep.known_finding(KNOWN_LJ, LJ_WHAT)
                 same = True
